@@ -1107,11 +1107,16 @@ impl OutstationSession {
     async fn write_error_response(
         &mut self,
         io: &mut PhysLayer,
-        respond_to: FragmentAddr,
+        info: FragmentInfo,
         writer: &mut TransportWriter,
         err: TransportRequestError,
         database: &DatabaseHandle,
     ) -> Result<(), RunError> {
+        if info.broadcast.is_some() {
+            tracing::warn!("ignoring broadcast fragment with bad header: {:?}", err);
+            return Ok(());
+        }
+
         let seq = match err {
             TransportRequestError::HeaderParseError(err) => match err {
                 HeaderParseError::UnknownFunction(seq, _) => Some(seq),
@@ -1125,7 +1130,7 @@ impl OutstationSession {
             self.write_solicited(
                 io,
                 writer,
-                respond_to,
+                info.addr,
                 Response::empty_solicited(seq, iin),
                 database,
             )
